@@ -6,6 +6,7 @@ import (
 	"os"
 	"sort"
 	"strings"
+	"sync"
 
 	"golang.org/x/tools/go/packages"
 	"golang.org/x/tools/go/ssa"
@@ -14,25 +15,28 @@ import (
 
 // World is one loaded program plus the verification configuration.
 type World struct {
-	Prog       *ssa.Program
-	Pkgs       []*packages.Package
-	SSAPkgs    []*ssa.Package
-	ModulePfx  []string // package path prefixes considered "module" code
-	Contracts  map[string]*Contract
+	Prog          *ssa.Program
+	Pkgs          []*packages.Package
+	SSAPkgs       []*ssa.Package
+	ModulePfx     []string // package path prefixes considered "module" code
+	Contracts     map[string]*Contract
 	CheckOverflow bool
 
 	FieldFact      func(e *FuncEnc, structT types.Type, field int, base, val string) string
 	MapValueFact   func(e *FuncEnc, mt *types.Map, val, has string) string
+	ElemFact       func(e *FuncEnc, elem types.Type, val string) string
 	DynamicPolicy  func(e *FuncEnc, in ssa.Instruction, name string) CallKind
 	ExternalPolicy func(full string) CallKind
 	Library        map[string]LibModel
 
-	FSStable bool // dynamic calls cannot reach a file-system writer
+	FSStable  bool // dynamic calls cannot reach a file-system writer
 	FSWriters []string
-	mod     map[*ssa.Function]*modInfo
-	allFns  []*ssa.Function
-	impls   map[string][]*ssa.Function
-	modDone bool
+	mod       map[*ssa.Function]*modInfo
+	allFns    []*ssa.Function
+	impls     map[string][]*ssa.Function
+	modDone   bool
+	modOnce   sync.Once
+	fnsOnce   sync.Once
 }
 
 type modInfo struct {
@@ -110,9 +114,11 @@ func (w *World) ContractFor(f *ssa.Function) *Contract {
 // Functions returns all module functions (including anonymous ones and generic
 // instantiations reachable from them), sorted by name.
 func (w *World) Functions() []*ssa.Function {
-	if w.allFns != nil {
-		return w.allFns
-	}
+	w.fnsOnce.Do(w.computeFunctions)
+	return w.allFns
+}
+
+func (w *World) computeFunctions() {
 	all := ssautil.AllFunctions(w.Prog)
 	for f := range all {
 		if f.Blocks == nil || f.Synthetic != "" && !strings.Contains(f.Synthetic, "instance") {
@@ -127,7 +133,6 @@ func (w *World) Functions() []*ssa.Function {
 		w.allFns = append(w.allFns, f)
 	}
 	sort.Slice(w.allFns, func(i, j int) bool { return w.allFns[i].String() < w.allFns[j].String() })
-	return w.allFns
 }
 
 // ---------------------------------------------------------------- mod sets
@@ -148,9 +153,10 @@ func (w *World) ModSet(f *ssa.Function) (map[string]bool, bool, bool) {
 }
 
 func (w *World) computeMods() {
-	if w.modDone {
-		return
-	}
+	w.modOnce.Do(w.computeModsOnce)
+}
+
+func (w *World) computeModsOnce() {
 	w.modDone = true
 	w.mod = map[*ssa.Function]*modInfo{}
 	d := NewDecls()
